@@ -205,6 +205,8 @@ def kill_preference_reader(ctx):
 
 
 def run(ctx):
+    from .C01 import children_are_direct
+    children_are_direct(ctx)
     # locals / parameters the rules below refer to by name (a rename makes the analysis 'broken', never a violation)
     ctx.anchor(ctx.fn1('Oomd::BaseKillPlugin::resumeTryingToKillSomething'), 'candidate', 'nextBestOptionStack', 'sorted')
     ctx.anchor(ctx.fn1('Oomd::BaseKillPlugin::tryToKillSomething'), 'sorted', 'nextBestOptionStack')
